@@ -50,6 +50,8 @@ def run(rep, tier):
     fam = suvfam.Fam(rep, "C01", sub=".l1")
     fam.list_ns = (4, 9, 16, 25, 36)          # the supported squares: list -> vector stores the list exactly (other lengths: C14)
     fam.add_life(names=["eq", "GetComponents", "ctor_list"])
+    fam.also_tags = {"C09"}
+    fam.add_kernels(fams=["Addition", "Subtraction", "Negation", "Multiplication"])   # every component of the result is written (exactly once) for EVERY scalar and operand value
     fam.add_guards()          # a + b, a - b for every overload (operand order of the difference, value categories): the proxy handed to the kernels of the L2 part
     fam.run(scenario=suvfam_scen.scenario)
 
